@@ -9,7 +9,7 @@ import vlib
 
 # not yet in coq/_CoqProject: the .vo files are used as compiled (see the final report)
 PROOF_MODULES = []
-OBLIGATIONS_FINAL = [
+OBLIGATIONS = [
     "C38/P_fornberg_exact.v",
     "C38/P_fornberg_invariant.v",
     "C38/P_fdiff_in_bounds.v",
@@ -17,7 +17,6 @@ OBLIGATIONS_FINAL = [
     "C38/P_refuted.v",
     "C38/P_nonvacuous.v",
 ]
-OBLIGATIONS = []
 
 W32 = 1 << 32
 
@@ -261,7 +260,7 @@ def explore(ctx, drv, model, cases, search=False):
         rep = {"family": "C38", "case": c, "model_case": cm, "impl": canon, "model": m}
         if oracle:
             ctx.violation("C38/weights-not-exact", "case `%s`: %s" % (c, oracle.strip()), rep)
-        elif "CRASH" in canon or "HANG" in canon or "UNCAUGHT" in canon or "EXN" in canon:
+        elif "CRASH" in canon or "HANG" in canon or "UNCAUGHT" in canon:
             key = crash_key(cm)
             ctx.violation(key, "case `%s` ends with %s on the library (model: %s)" % (c, canon[-40:], m[-60:]), rep)
             if not m.startswith("OOB"):
